@@ -8,9 +8,9 @@ hook_commits = [l.split()[0] for l in hooks if "verif hooks" in l]
 NOTE = ("Trusted base: Lean 4.33.0 kernel (leanchecker re-check in the thorough tier); axioms propext, Classical.choice, Quot.sound only "
         "(audited by #print axioms on every run); hand-written Lean model tied to /repo's current tree by the correspondence run of this check "
         "(Rust harness linked against the real crates <-> compiled Lean driver), exhaustive where the domain is finite, sampled elsewhere; "
-        "std/bitflags/radix_trie behaviour modelled as stated in DESIGN.md section 5. Where the property's proof modules include Tie / TieEnv, the model's tables "
+        "std/bitflags/radix_trie behaviour modelled as stated in DESIGN.md section 5. Where the property's proof modules include Tie / TieEnv / TieEnvName / TieEnvMdns / TieEnvTxt, the model's tables "
         "(type codes, RDATA field layouts, masks, limits, enum tables) and the numbers and orders of the envelope functions (peek / parse byte ranges, guards, advances, write orders, "
-        "match arms, refresh arithmetic) are regenerated from /repo's Rust sources on every run by tools/translate.py and tools/translate_env.py (regex-based extractors, trusted) and "
+        "match arms, refresh arithmetic; the loop of Name::parse turn by turn, the name writers and Display, the mDNS store, build_reply, ingestion, from_records / into_records, the TXT text API, the receive buffers of the service loops) are regenerated from /repo's Rust sources on every run by tools/translate.py and tools/translate_env.py (regex-based extractors, trusted) and "
         "proved equal to the hand-written model's; a source construct they cannot read is listed as untied and is then tied by the correspondence alone.")
 
 CLAIMED = {
